@@ -24,6 +24,8 @@ pub const FLOAT_POOL: [f32; 16] = [
     f32::INFINITY,
     f32::NAN,
 ];
+/// values off the boundaries: powers of two and their neighbours, a narrow mid range
+pub const MID_POOL: [i32; 22] = [15, 16, 17, 31, 32, 33, 63, 64, 65, 255, 256, 257, 1000, 1023, 1024, 1025, 1050, 1099, 1100, 65535, 65536, 16777217];
 pub const NAME_POOL: [&str; 6] = ["a", "b", "c", "x1", "foo", "Bar-2"];
 
 #[derive(Clone, Copy, Debug, PartialEq)]
@@ -40,9 +42,14 @@ pub fn int(r: &mut Rng, m: Vals) -> i32 {
     match m {
         Vals::Boundary => *r.pick(&INT_POOL),
         Vals::Small => r.range(-12, 12) as i32,
-        Vals::Mixed => match r.below(10) {
+        Vals::Mixed => match r.below(12) {
             0..=3 => *r.pick(&INT_POOL),
             4..=7 => r.range(-12, 12) as i32,
+            8 => {
+                let v = *r.pick(&MID_POOL);
+                if r.bool() { v } else { -v }
+            }
+            9 => r.range(-1200, 1200) as i32,
             _ => r.next_u64() as i32,
         },
     }
@@ -69,7 +76,20 @@ pub fn float(r: &mut Rng, m: Vals) -> f32 {
 }
 
 pub fn name(r: &mut Rng) -> String {
-    r.pick(&NAME_POOL).to_string()
+    match r.below(60) {
+        0 => r.pick(&["é", "名前", "a\u{301}b", "naïve-€"]).to_string(),
+        1 => {
+            // long names around byte-length boundaries, with multi-byte characters in them
+            let target = *r.pick(&[255usize, 256, 257, 4096, 65534, 65535, 65536, 65537]);
+            let unit = *r.pick(&["aé", "x", "é", "ab€"]);
+            let mut s = String::with_capacity(target + 4);
+            while s.len() < target {
+                s.push_str(unit);
+            }
+            s
+        }
+        _ => r.pick(&NAME_POOL).to_string(),
+    }
 }
 
 pub fn bvec(r: &mut Rng, maxlen: usize) -> Vec<bool> {
@@ -151,6 +171,8 @@ pub fn item_budget(r: &mut Rng, budget: usize, depth: usize, o: &ItemOpts, instr
 #[derive(Clone, Copy, Debug)]
 pub struct StateOpts {
     pub vals: Vals,
+    /// usual maximum stack depth; one state in eight is "big": some stacks up to 40 deep,
+    /// vectors up to 40 long, code trees up to ~80 points and nesting 8
     pub max_depth: usize,
     pub graphs: bool,
     pub io: bool,
@@ -231,7 +253,9 @@ pub fn cfg(r: &mut Rng) -> SCfg {
 pub fn snap(r: &mut Rng, o: &StateOpts, instr_names: &[String]) -> Snap {
     let mut s = Snap::empty();
     let io = ItemOpts::all(o.vals);
-    let d = |r: &mut Rng| r.below(o.max_depth + 1);
+    let big = o.max_depth >= 3 && r.chance(1, 8);
+    let vmax = if big { 40 } else { 5 };
+    let d = |r: &mut Rng| if big && r.chance(1, 3) { r.below(41) } else { r.below(o.max_depth + 1) };
     let n = d(r);
     s.b = (0..n).map(|_| r.bool()).collect();
     let n = d(r) + if r.bool() { 2 } else { 0 };
@@ -241,7 +265,16 @@ pub fn snap(r: &mut Rng, o: &StateOpts, instr_names: &[String]) -> Snap {
     let n = d(r);
     s.n = (0..n).map(|_| name(r)).collect();
     let n = d(r);
-    s.c = (0..n).map(|_| item(r, 3, &io, instr_names)).collect();
+    s.c = (0..n)
+        .map(|_| {
+            if big && r.chance(1, 4) {
+                let b = 20 + r.below(60);
+                item_budget(r, b, 8, &io, instr_names)
+            } else {
+                item(r, 3, &io, instr_names)
+            }
+        })
+        .collect();
     let n = d(r);
     s.e = (0..n).map(|_| item(r, 2, &io, instr_names)).collect();
     let n = r.below(3);
@@ -252,11 +285,11 @@ pub fn snap(r: &mut Rng, o: &StateOpts, instr_names: &[String]) -> Snap {
         })
         .collect();
     let n = d(r);
-    s.bv = (0..n).map(|_| bvec(r, 5)).collect();
+    s.bv = (0..n).map(|_| bvec(r, vmax)).collect();
     let n = d(r);
-    s.iv = (0..n).map(|_| ivec(r, 5, o.vals)).collect();
+    s.iv = (0..n).map(|_| ivec(r, vmax, o.vals)).collect();
     let n = d(r);
-    s.fv = (0..n).map(|_| fvec(r, 5, o.vals)).collect();
+    s.fv = (0..n).map(|_| fvec(r, vmax, o.vals)).collect();
     if o.io {
         for _ in 0..r.below(4) {
             s.inp.push((ivec(r, 3, o.vals), bvec(r, 4)));
